@@ -636,6 +636,17 @@ def chrono_limit_docs(prefix="cl"):
                 k += 1
                 cases.append(G.dcase(cid, ds, de, src, G.Cfg(offset=off, now=G.NOW)))
                 meta[cid] = {"stream": "chrono-limits", "mutated": True}
+    # `to` values that are cut short, use other separators or hold multi-byte characters at the positions of the
+    # separators: never a panic, never ready
+    for to in ("2024/", "2024/02", "abcd/", "2024/0\u3042", "2024/02/15 12:00:00", "2024/02-15 12:00:00", "2000-01", "2000", "", "\u3042", "2000-01-01T00:00:00",
+               "20000101", "2000-", "2000-01-", "2000-01-01 ", "2000-01-01 00", "2000-01-01 00:00", "2000-01-01 00:00:", "\u3042\u3042\u3042\u3042-01-01 00:00:00",
+               "2000\u301c01\u301c01 00:00:00", "2000.01.01 00:00:00", "-", "/", "    /", "2024\\", "2024:02:15 12:00:00"):
+        for ds, de in (("<", ">"), ("<!-- <", "> -->")):
+            src = f'a\n{ds}tl to="{to}"{de}\nbody\n{ds}/tl{de}\nb\n'
+            cid = f"{prefix}{k}"
+            k += 1
+            cases.append(G.dcase(cid, ds, de, src, G.Cfg(offset="+00:00", now=G.NOW)))
+            meta[cid] = {"stream": "chrono-limits", "expect": src, "why": "a `to` value that is not a wall-clock time"}
     return cases, meta
 
 
@@ -650,7 +661,8 @@ def weird_tag_cases(rng, n, prefix="wtag"):
     attrs = [e, f, 'name="x"', "name='x'", "name=x", "name=", "name", 'name="x"x', "skip", "SKIP", "skip=''", "unwrap-block", 'unwrap-block="1"',
              "to", "to=2000-01-01", 'to="2000-01-01 00:00:00"', "to='2000-01-01 00:00:00'", 'c="it\'s"', "c='say \"hi\"'", 'c="a\\"', "c='\\'",
              'c="x', "c='y", '"', "'", "=", "==", 'a="1"b="2"', "é='ü'", "\x01", "\x7f", 'c="\t"', "/", "//", 'to ="2000-01-01 00:00:00"',
-             'to= "2000-01-01 00:00:00"', 'name = "x"']
+             'to= "2000-01-01 00:00:00"', 'name = "x"', 'name name="x"', 'to to="2000-01-01 00:00:00"', 'to="2024/"', 'to="2024/02"', 'name="x""', "name='x'=",
+             'c="1" "', 'to="2000-01-01 00:00:00""']
     names = ["tl", "rm", "tl", "rm", "TL", "tl\r", "/tl", "//tl", "tl/", "t l", "期限", "tl\u00a0", "", "t\tl"]
     for i in range(n):
         ds, de = rng.choice(G.DELIMS[:10])
@@ -1261,6 +1273,17 @@ def gen_c06(rng, tier):
             k += 1
             cases.append(G.dcase(cid, "<", ">", src, cfg))
             meta[cid] = {"stream": "probe", "expect": "ab" if rdy else src, "why": f"identical tag names, {attrs} targets={targets}"}
+    # several attributes called `name`: the first one decides, with or without a value
+    cfg1 = G.Cfg("tl", "rm", "+00:00", G.NOW, ("x",))
+    for attrs, rdy in ((["name", 'name="x"'], False), (["name=x", 'name="x"'], False), (['name=""', 'name="x"'], False), (['name="y"', 'name="x"'], False),
+                       (['name="x"', "name"], True), (['name="x"', 'name="y"'], True), (["c='1'", "name", "k", 'name="x"'], False),
+                       (['name="x"', 'name="x"'], True), (["NAME", 'name="x"'], True), (["name", "name", 'name="x"'], False)):
+        for sep in (" ", "\n"):
+            src = "a<rm" + "".join(sep + a for a in attrs) + ">x</rm>b"
+            cid = f"s{k}"
+            k += 1
+            cases.append(G.dcase(cid, "<", ">", src, cfg1))
+            meta[cid] = {"stream": "probe", "expect": "ab" if rdy else src, "why": f"attributes {attrs}: the first `name` decides"}
     docs = doc_cases(rng, 500 if tier == "quick" else 5000, "d")
     # targets from a config file are the lines of the file (LF or CR LF), nothing else
     dsrc = 'a<!-- <removal-marker name=""> -->x<!-- </removal-marker> -->b<!-- <removal-marker name="x"> -->y<!-- </removal-marker> -->c'
